@@ -313,6 +313,8 @@ impl Driver {
                     }
                     trace!("register {:?}", arg);
                 }
+                #[cfg(compio_verif)]
+                crate::verif::log(crate::verif::Kind::Submit, key.verif_id());
                 Poll::Pending
             }
             Decision::Completed(res) => Poll::Ready(Ok(res)),
@@ -373,14 +375,22 @@ impl Driver {
         let waker = self.waker();
         let completed = self.completed_tx.clone();
         // SAFETY: we're submitting into the driver, so it's safe to freeze here.
+        #[cfg(compio_verif)]
+        let verif_id = key.verif_id();
+        #[cfg(compio_verif)]
+        crate::verif::log(crate::verif::Kind::PoolSubmit, verif_id);
         let mut key = unsafe { key.freeze() };
 
         let mut closure = move || {
+            #[cfg(compio_verif)]
+            crate::verif::log_pool(crate::verif::Kind::PoolEnter, verif_id);
             let operate = || match key.as_mut().carrier.operate() {
                 Poll::Pending => unreachable!("this operation is not non-blocking"),
                 Poll::Ready(res) => res,
             };
             let res = catch_unwind_io(AssertUnwindSafe(operate));
+            #[cfg(compio_verif)]
+            crate::verif::log_pool(crate::verif::Kind::PoolLeave, verif_id);
             let _ = completed.send(Entry::new(key.into_inner(), res));
             waker.wake();
         };
